@@ -297,7 +297,7 @@ fn c12_dropped_stream_after_shutdown_sends_no_second_fin() {
 // sequence numbers and the written bytes unaltered; a write without credit parks and puts NOTHING on
 // the link; a credit handed back by the reader lets the next write through.
 /// `N` writes of 2 symbolic bytes each on a stream with `CAP` credits; after write number
-/// `release_after` (if < N) the reader gives one credit back.
+/// `release_after` (if < N) the peer's reader gives one credit back.
 fn write_schedule<const CAP: usize, const N: usize>(release_after: usize) -> (usize, usize) {
     let mut world = two_host_world(CAP);
     let pair = SocketPair::new(SocketAddr::new(IP_A, 49152), SocketAddr::new(IP_B, 80));
@@ -326,7 +326,9 @@ fn write_schedule<const CAP: usize, const N: usize>(release_after: usize) -> (us
             }
             std::mem::forget(r);
             if i == release_after {
-                read_half.flow_control.release();
+                // what the PEER's reader does when it takes a data segment off its queue: the write
+                // half's credit pool is the one the peer's read half releases into
+                write_half.flow_control.release();
             }
             i += 1;
         }
